@@ -55,7 +55,7 @@ def run(C, R):
             mod = st.rsplit('::', 1)[0] + '::'
             # R6: over every transition (state methods and functions that reach into the state): the slot is assigned
             # only by send and emptied only towards the caller (broadcast: never emptied)
-            n6 = slot_discipline(R, E, F, CG, st, 'C12.R6', may_take=(mode == 'take'))
+            n6 = slot_discipline(R, E, F, CG, st, 'C12.R6', may_take=(mode == 'take'), empty_when=('is_fulfilled', 0))
             R.floor('C12.R6 slot-accesses[%s] %s' % (cfg, st), n6, 1)
             # R1 who may write the slot
             nw = 0
@@ -156,8 +156,21 @@ def run(C, R):
                 elif pv == 'Ready':
                     ff = const_of(E, path.facts, ('init', (('P', 'self'), FLAG)))
                     kv = E.variant_known(path.facts, ('init', (('P', 'self'), 'value')))
+                    inner_ret = E.project(path.ret, (('dc', 'Ready'), '0')) if path.ret[0] == 'agg' else None
                     if ff == 1 and kv == ('eq', 'None') and (mode == 'take' or not takes):
                         R.ok('C12.R3', '%s|none|%s' % (rec['path'], path_cond(E, path)))
+                    elif ff == 1 and mode == 'take' and takes and inner_ret is not None and inner_ret == takes[0].get('old'):
+                        # `Ready(self.value.take())` under is_fulfilled: whatever the slot holds is handed out - the
+                        # value if it is still there, None otherwise
+                        ndel += 1
+                        R.ok('C12.R3', '%s|decided: hands out the slot as it is|%s' % (rec['path'], path_cond(E, path)))
+                    elif ff == 1 and mode == 'clone' and not takes and inner_ret is not None and any(
+                            c_['k'] == 'call' and c_.get('name') == 'clone' and c_.get('ret') == inner_ret and c_.get('args')
+                            and c_['args'][0][0] == 'ref' and fields_of(c_['args'][0][1])[-1:] == ('value',)
+                            for c_ in path.events):
+                        # broadcast: `Ready(self.value.clone())` under is_fulfilled - a copy of whatever the slot holds
+                        ndel += 1
+                        R.ok('C12.R3', '%s|decided: hands out a clone of the slot as it is|%s' % (rec['path'], path_cond(E, path)))
                     else:
                         R.fail('C12.R3', [rec['path'], 'none-without-fulfilled'],
                                'None is delivered without is_fulfilled == true and an empty slot (flag=%s slot=%s)'
@@ -174,8 +187,10 @@ def run(C, R):
                     continue
                 ff = const_of(E, path.facts, ('init', (('P', 'self'), FLAG)))
                 kv = E.variant_known(path.facts, ('init', (('P', 'self'), 'value')))
-                if ff == 0 and kv == ('eq', 'None'):
-                    R.ok('C12.R3', '%s|parks: no value, not fulfilled|%s' % (rec['path'], path_cond(E, path)))
+                if ff == 0 and kv in (('eq', 'None'), None):
+                    # (not fulfilled implies an empty slot: the slot is assigned only together with the flag - R1 / R6 -
+                    # and the constructors start empty or decided - R0; so the flag alone justifies parking)
+                    R.ok('C12.R3', '%s|parks: not fulfilled%s|%s' % (rec['path'], ', no value' if kv else '', path_cond(E, path)))
                 else:
                     R.fail('C12.R3', [rec['path'], 'parks-although-decided'],
                            'a receiver is queued although the path has not established "no value and not fulfilled" '
